@@ -392,8 +392,8 @@ fn replay_honest(c: &mut Concretiser, idx: usize, case: &Value) -> Value {
                             problems.push(format!("mask {mask}: sealing changed the printed token"));
                         }
                         for az in ["allow if right(1);", "allow if operation(null); deny if true;", "check if resource(2); allow if true;", "allow if right(3) trusting ed25519/0000000000000000000000000000000000000000000000000000000000000000;"] {
-                            let ra = a.authorizer().and_then(|_| biscuit_auth::builder::AuthorizerBuilder::new().code(az)?.build(&a)).and_then(|mut z| z.authorize());
-                            let rb = b.authorizer().and_then(|_| biscuit_auth::builder::AuthorizerBuilder::new().code(az)?.build(&b)).and_then(|mut z| z.authorize());
+                            let ra = a.authorizer().and_then(|_| biscuit_auth::builder::AuthorizerBuilder::new().code(az)?.limits(crate::auth::big_limits()).build(&a)).and_then(|mut z| z.authorize());
+                            let rb = b.authorizer().and_then(|_| biscuit_auth::builder::AuthorizerBuilder::new().code(az)?.limits(crate::auth::big_limits()).build(&b)).and_then(|mut z| z.authorize());
                             if format!("{ra:?}") != format!("{rb:?}") {
                                 problems.push(format!("mask {mask}: sealed token authorises differently under {az:?}: {ra:?} vs {rb:?}"));
                             }
